@@ -38,6 +38,7 @@ type Config struct {
 	Trace        bool
 	Env          []string
 	BuildTags    []string
+	Tier         int // 0 quick, 1 thorough (vf.Tier)
 }
 
 type Stat struct {
@@ -84,6 +85,8 @@ type Report struct {
 	Funcs         map[string]int64 // functions of the target executed (call counts)
 	Samples       []PathSample
 	Truncated     bool
+	Decisions     int64 // symbolic/finite decisions taken over all paths
+	MaxDepth      int   // longest decision sequence
 }
 
 type Engine struct {
@@ -443,8 +446,17 @@ func (e *Engine) runPath(i *interpreter, fn *ssa.Function, it workItem) {
 			}
 			switch r := r.(type) {
 			case pathAbort:
+				if os.Getenv("SYMGO_DEBUG") != "" && (r.kind == abUnsupported || r.kind == abBound || r.kind == abBudget) {
+					r.reason += i.panicStack
+				}
 				abort = &r
 				end = r.kind.String() + ": " + r.reason
+				switch r.kind {
+				case abBudget, abGuardBudget:
+					e.recordEnd(i, "hang", "unwinding budget exhausted: "+r.reason)
+				case abFatal, abStackOverflow:
+					e.recordEnd(i, "fatal", r.reason)
+				}
 			case targetPanic:
 				end = "uncaught panic: " + toString(r.v)
 				e.recordPanic(i, end)
@@ -477,6 +489,10 @@ func (e *Engine) runPath(i *interpreter, fn *ssa.Function, it workItem) {
 	defer e.mu.Unlock()
 	r := e.rep
 	r.Paths++
+	r.Decisions += int64(len(p.decisions))
+	if len(p.decisions) > r.MaxDepth {
+		r.MaxDepth = len(p.decisions)
+	}
 	if abort != nil {
 		r.AbortCounts[abort.kind.String()]++
 		if abort.kind == abInfeasible {
@@ -518,8 +534,10 @@ func (e *Engine) runPath(i *interpreter, fn *ssa.Function, it workItem) {
 	}
 }
 
-func (e *Engine) recordPanic(i *interpreter, what string) {
-	v := Violation{Harness: e.curHarness, Msg: what, Kind: "panic", Inputs: map[string]string{}, Choices: append([]int(nil), i.p.choices...)}
+func (e *Engine) recordPanic(i *interpreter, what string) { e.recordEnd(i, "panic", what) }
+
+func (e *Engine) recordEnd(i *interpreter, kind, what string) {
+	v := Violation{Harness: e.curHarness, Msg: what, Kind: kind, Inputs: map[string]string{}, Choices: append([]int(nil), i.p.choices...)}
 	m := i.currentModelSafe()
 	for _, in := range i.p.inputs {
 		v.Inputs[in.Name] = fmt.Sprintf("%d", m[in.Name]&maskKind(in.Kind))
